@@ -16,9 +16,27 @@ pub fn with_io<R: 'static>(f: impl FnOnce(&IoH) -> R + 'static) -> R {
     std::mem::forget(h);
     r
 }
+/// run `step(io, i)` for i in 0..n with the executor running between the steps: every task parked
+/// by `spawn` is polled once after each step (Kani: model task table; replay: the ntex runtime)
+pub fn with_io_steps(n: usize, mut step: impl FnMut(&IoH, usize) + 'static) {
+    let h = IoH { io: IoRef::model_new() };
+    let mut i = 0;
+    while i < n {
+        step(&h, i);
+        if i + 1 < n {
+            ntex_util::model_run_spawned();
+        }
+        i += 1;
+    }
+    std::mem::forget(h);
+}
 impl IoH {
     pub fn ioref(&self) -> IoRef {
         self.io.clone()
+    }
+    /// the io object as the dispatcher owns it
+    pub fn take_boxed(&self) -> ntex_io::IoBoxed {
+        ntex_io::IoBoxed(self.io.clone())
     }
     /// frames written so far (each by one successful encode call)
     pub fn frames(&self) -> usize {
